@@ -97,10 +97,10 @@ func c06IdentityWorld(r *simcore.Run) any {
 			return d
 		}
 	}
-	if tp.Bool(1, 3, "txfaults") {
+	if tp.Bool(1, 2, "txfaults") {
 		srvPlan := net.Plan
 		srvPlan.TxStampMissing = uint64(tp.Intn(300, "txmiss"))
-		srvPlan.TxStampLate = uint64(tp.Intn(100, "txlate"))
+		srvPlan.TxStampLate = uint64(tp.Intn(300, "txlate"))
 		net.PlanFor = func(d *simnet.Datagram, at *simnet.UDPConn) *simnet.FaultPlan {
 			if at != nil && at.Host() == srvHost {
 				return &srvPlan
